@@ -103,23 +103,30 @@ impl Filter for BasicFilter {
                     .nanos()
                     .lossy_into();
             // and for the master
-            let interval_master: f64 = ((measurement.event_time - offset)
-                - (last_step.event_time - last_step.offset))
-                .nanos()
-                .lossy_into();
+            let interval_master = (measurement.event_time - offset)
+                - (last_step.event_time - last_step.offset);
 
-            // get relative frequency difference
-            let mut freq_diff = interval_local / interval_master;
-            if (freq_diff - 1.0).abs() > self.freq_confidence {
-                freq_diff = freq_diff.clamp(1.0 - self.freq_confidence, 1.0 + self.freq_confidence);
-                self.freq_confidence *= 2.0;
+            if interval_master <= Duration::ZERO {
+                // The master's clock did not advance between the two measurements
+                // (e.g. a repeated measurement): there is no frequency information.
+                0.0
             } else {
-                self.freq_confidence -=
-                    (self.freq_confidence - (freq_diff - 1.0).abs()) * self.gain;
-            }
+                let interval_master: f64 = interval_master.nanos().lossy_into();
 
-            // and decide the correction (and convert to ppm)
-            -(freq_diff - 1.0) * self.gain * 0.1 * 1e6
+                // get relative frequency difference
+                let mut freq_diff = interval_local / interval_master;
+                if (freq_diff - 1.0).abs() > self.freq_confidence {
+                    freq_diff =
+                        freq_diff.clamp(1.0 - self.freq_confidence, 1.0 + self.freq_confidence);
+                    self.freq_confidence *= 2.0;
+                } else {
+                    self.freq_confidence -=
+                        (self.freq_confidence - (freq_diff - 1.0).abs()) * self.gain;
+                }
+
+                // and decide the correction (and convert to ppm)
+                -(freq_diff - 1.0) * self.gain * 0.1 * 1e6
+            }
         } else {
             // No data, so first run, so initialize
             if let Err(error) = clock.set_frequency(0.0) {
@@ -147,10 +154,13 @@ impl Filter for BasicFilter {
         if let Err(error) = clock.step_clock(correction) {
             log::error!("Could not step clock: {:?}", error);
         }
-        if let Err(error) = clock.set_frequency(self.cur_freq + freq_corr) {
+        let new_freq = self.cur_freq + freq_corr;
+        if !new_freq.is_finite() {
+            log::error!("Not programming non-finite clock frequency");
+        } else if let Err(error) = clock.set_frequency(new_freq) {
             log::error!("Could not adjust clock frequency: {:?}", error);
         } else {
-            self.cur_freq += freq_corr;
+            self.cur_freq = new_freq;
         }
         update
     }
